@@ -142,6 +142,8 @@ TYPES = [
     ("list_made", "List[MadeDC]"), ("local_dc", "LD"), ("mproxy", "MappingProxyType[str, LE]"),
     ("ddict_local", "DefaultDict[str, LD]"), ("ddict_enum", "DefaultDict[str, LE]"), ("opt_local", "Optional[LD]"),
     ("lit_local_enum", "Literal[LE.X]"), ("dict_enum_key", "Dict[E1, E2]"), ("mproxy_int", "MappingProxyType[str, int]"),
+    ("pep604_fn_enum", "FnEnumVar | None"), ("pep604_made", "List[MadeDC | None]"), ("pep604_two", "E1 | E2"),
+    ("pep604_nt", "Dict[str, FnNTVar | int]"),
     ("env_status", "EnvStatus"), ("env_addr", "EnvAddr"), ("env1_status", "Env1Status"), ("env1_path", "Env1Path"), ("env_generic", "Env[http.HTTPStatus]"),
     ("odict_made", "OrderedDict[str, MadeDC]"), ("counter", "Counter[str]"), ("chain_fn", "ChainMap[str, FnEnumVar]"),
 ]
